@@ -226,6 +226,17 @@ CHECKS = {
               "vs the interfaces of the complex with decoded flags, faces of trilinear right-handed models incl. normals, OpenFOAM files (also into a new directory)."),
         note=TB + " C18: Properties/C18.v is closed under the global context (no axioms). Point identity is taken from coordinates rounded to 1e-6.",
         design='DESIGN.md section 8, C18'),
+    'C19': dict(
+        engine='codecs',
+        technique='Coq proof (G2 record layout decode-after-encode = identity for any list of objects, flat/multi-index bijection, C-order/F-order re-indexing round trip) + differential run of the written records vs the extracted encoder + round trips through independent readers/writers',
+        text=("PARTIAL proof level. Theorems in Properties/C19.v: decoding the G2 lines of any list of well-formed objects (parametric dimension 1-3, non-periodic, control net of the right size) "
+              "returns exactly that list; the first-index-fastest point order of the file and the stored order are inverse re-indexings; ravel/unravel are inverse bijections for every shape. "
+              "Not proved (L2 only): '%.16g' number formatting and text parsing, opening of periodic objects before writing (C07/C08), analytic primitive records, SPL, STL, SVG. "
+              "Correspondence: L1 the records found in written files (parsed by an independent reader) vs the extracted encoder; L2 write/read round trips to 16 digits for lists of random "
+              "objects incl. periodic ones and magnitudes 1e-150..1e150, records from an independent writer, G2 primitive records (circle, line, sphere, cylinder, torus, disc, plane) with random "
+              "placement evaluated against their shape, SPL records, STL ascii/binary vertex and facet checks, SVG write/read up to one similarity."),
+        note=TB + " C19: SVG curves are continuous planar non-rational curves of order <= 4 (a curve with a jump cannot be elevated to a cubic, see the C05 finding).",
+        design='DESIGN.md section 8, C19'),
 }
 
 PENDING_REASON = "not claimed in this revision: model/theorems for this property are still being built (see DESIGN.md section 8 for the plan)"
